@@ -29,6 +29,11 @@ def Dim.WF (d : Dim) : Prop :=
 
 def Layout.WF (l : Layout) : Prop := ∀ d ∈ l, d.WF
 
+instance (d : Dim) : Decidable d.WF :=
+  inferInstanceAs (Decidable (d.nelems = 0 ∨ (0 < d.stride ∧ 0 < d.nelems ∧ d.stride ∣ d.nelems ∧ d.stride ∣ d.offset)))
+
+instance (l : Layout) : Decidable l.WF := inferInstanceAs (Decidable (∀ d ∈ l, d.WF))
+
 /-- product of the sizes of a list of extensions -/
 def nElems : List Ext → Int
   | [] => 1
